@@ -530,6 +530,29 @@ def _merge_namedtuple_compare(mods):
                 return SymBool(z3.And(dx <= tt, -dx <= tt, dy <= tt, -dy <= tt))
 
             cls.almost_equals = merged
+    # --- optional cut of the default 1e-9 tolerance band (opts['tol_cut']) -------------
+    if gt is not None:
+        orig_ae = gt.almost_equal
+        default_tol = gt.DEFAULT_ALMOST_EQUAL_TOLERANCE
+
+        def almost_equal_cut(c1, c2, tolerance=default_tol):
+            ctx = C.CUR
+            if (
+                ctx is not None
+                and ctx.opts.get("tol_cut")
+                and tolerance == default_tol
+                and (isinstance(c1, SymReal) or isinstance(c2, SymReal))
+            ):
+                d = term_of(c1) - term_of(c2)
+                tt = z3.RealVal("1/1000000000")
+                ctx._add(z3.Not(z3.And(d != 0, d <= tt, -d <= tt)))  # band 0<|d|<=1e-9 assumed empty
+                return SymBool(d == 0)
+            return orig_ae(c1, c2, tolerance)
+
+        for m_ in mods._mods.values():
+            if getattr(m_, "almost_equal", None) is orig_ae:
+                m_.almost_equal = almost_equal_cut
+        mods.tol_cut_installed = True
     mods.stubs.append(
         "==/!= of Point/Vector/Rect/Affine2D and Point/Vector.almost_equals evaluated as one conjunction "
         "(state merging; equivalence with the source function re-proved by C09 lemma_merge)"
